@@ -252,6 +252,12 @@ def simp(t):
             hits = [v for k, v in base[1] if k == i and type(k[1]) is type(i[1])]
             if hits:
                 return hits[-1]
+        if base[0] == "dict" and len(base[1]) == 2 and {k for k, _ in base[1]} == {C(True), C(False)} \
+                and ((i[0] == "call" and i[1] == "bool" and len(i[2]) == 1 and not i[3]) or i[0] in ("truthy", "not")):
+            # TABLE[bool(flag)] with the two entries True / False: one or the other
+            c = ("truthy", i[2][0]) if i[0] == "call" else i
+            d = dict(base[1])
+            return simp(("ite", c, d[C(True)], d[C(False)]))
         if base[0] == "call" and base[1] == "dict" and len(base[2]) == 1 and not base[3]:
             return simp(("idx", base[2][0], i))            # dict(d)[k] == d[k]
         if base[0] == "call" and base[1] in ("tuple", "list") and len(base[2]) == 1 and not base[3] and is_const(i) and isinstance(i[1], int) \
@@ -584,6 +590,18 @@ class SymX:
         st = self.block(self.func.node.body, st, self.func, 0)
         self.final = st
         self.ret = st.env["$yield"] if is_gen else st.env["$ret"]
+        if self.func.name == "solve" and self.func.cls is not None:
+            # what solve() returns when it returns: the rules about its result read the tuple, the raises are judged as effects
+            def _value(t):
+                if isinstance(t, tuple) and t and t[0] == "ite":
+                    a, b = _value(t[2]), _value(t[3])
+                    if a[0] == "raise":
+                        return b
+                    if b[0] == "raise":
+                        return a
+                    return ("ite", t[1], a, b)
+                return t
+            self.ret = _value(self.ret)
         return self
 
     # ---- statements ------------------------------------------------------------
@@ -1238,6 +1256,10 @@ class SymX:
             k = (base, e.attr)
             if k in st.heap:
                 return st.heap[k]
+            if base[0] == "dict" and base[1] and base[1][0][0] == C(self.RECORD_KEY):
+                hit = [v for k_, v in base[1] if k_ == C(e.attr)]
+                if hit:
+                    return hit[0]
             if base == ("v", "self") and self.cls_name in ("Solver", "StochasticGame") and not self.ctx.cache.get("_option_consts_busy"):
                 # an option of the game / the solver outside the documented description (`initial_state=0`), at its default
                 self.ctx.cache["_option_consts_busy"] = True
@@ -1432,6 +1454,10 @@ class SymX:
                 m = self.prog.classes[b_].methods.get(c.func.attr)
                 if m is not None:
                     return self.inline(m, (("v", "self"),) + args, kws, st, depth)
+        if isinstance(c.func, ast.Name) and c.func.id in self.prog.classes and c.func.id not in st.env:
+            rec = self._record(c.func.id, args, kws, f, depth)
+            if rec is not None:
+                return rec
         callees = self.ctx.cg.resolve(c, f)
         if isinstance(c.func, ast.Name) and len(callees) == 1 and callees[0].cls is None and depth < self.inline_depth \
                 and callees[0].name not in self.no_inline:
@@ -1534,6 +1560,66 @@ class SymX:
         step.parent = loop
         self.for_loop(loop, st, f, depth)
         return st.env[acc]
+
+    RECORD_KEY = "__record_of__"
+
+    def _record(self, cname, args, kws, f, depth):
+        """An object of a plain record class - no base class, a constructor that only does `self.<field> = <expression of its
+        parameters>` - is the table of its fields: `Phase(states, strategies).strategies` is `strategies`.  Methods called on it stay
+        unresolved.  None for every other class."""
+        if cname in ("StochasticGame", "Node", "ProbabilisticNode", "PlayerOne", "PlayerTwo", "Solver"):
+            return None                     # the classes the rules are about
+        cls = self.prog.classes[cname]
+        if cls.bases or any(not (isinstance(b, ast.Name) and b.id == "object") for b in cls.node.bases) or cls.node.decorator_list:
+            return None
+        init = cls.methods.get("__init__")
+        if init is None or init.node.decorator_list or init.node.args.vararg or init.node.args.kwarg:
+            return None
+        me = init.params[0] if init.params else None
+        body = [b for b in init.node.body if not (isinstance(b, ast.Expr) and isinstance(b.value, ast.Constant))]
+        fields = []
+        for b in body:
+            if not (isinstance(b, ast.Assign) and len(b.targets) == 1 and isinstance(b.targets[0], ast.Attribute) and isinstance(b.targets[0].value, ast.Name)
+                    and b.targets[0].value.id == me):
+                return None
+            if b.targets[0].attr in [x for x, _ in fields]:
+                return None
+            fields.append((b.targets[0].attr, b.value))
+        # fields written anywhere else make the table stale
+        for g in self.prog.all_funcs():
+            if g is init:
+                continue
+            for n in ast.walk(g.node):
+                if isinstance(n, ast.Attribute) and isinstance(n.ctx, (ast.Store, ast.Del)) and n.attr in [x for x, _ in fields] \
+                        and not (isinstance(n.value, ast.Name) and n.value.id == "self" and g.cls is not None and g.cls.name != cname):
+                    return None
+        params = [p for p in init.params if p != me]
+        if any(a[0] == "star" for a in args) or len(args) > len(params):
+            return None
+        sub = State()
+        for p_, a in zip(params, args):
+            sub.env[p_] = a
+        for k, v in kws:
+            if k not in params:
+                return None
+            sub.env[k] = v
+        for p_ in params + list(init.kwonly):
+            if p_ not in sub.env:
+                if p_ not in init.defaults:
+                    return None
+                ok, v = self.prog.try_const(init.defaults[p_], init.mod)
+                if not ok:
+                    return None
+                sub.env[p_] = C(v)
+        sub.env[me] = ("v", "$new_" + cname)
+        items = [(C(self.RECORD_KEY), C(cname))]
+        for name, val in fields:
+            try:
+                t = self.expr(val, sub, init, depth + 1)
+            except Unsupported:
+                return None
+            items.append((C(name), t))
+        return ("dict", tuple(items))
 
     def inline(self, m, args, kws, st, depth):
         sub = State()
